@@ -47,6 +47,8 @@ fn main() {
     let code = engine::catch(|| match args[1].as_str() {
         "C01" => dispatch(&props::c01::P, &args),
         "C02" => dispatch(&props::c02::P, &args),
+        "C12" => dispatch(&props::c12::P, &args),
+        "C13" => dispatch(&props::c13::P, &args),
         "C14" => dispatch(&props::c14::P, &args),
         "C03" => dispatch(&props::c03::P, &args),
         "C04" => dispatch(&props::c04::P, &args),
